@@ -173,8 +173,8 @@ class CB:
         self.prop_next = [c for c in b.calls_to('Iterator::next')
                           if c.targs and 'Property<M>' in c.targs[0]]
         self.cond_calls = [c for c in b.indirect_calls() if self._is_condition(c)]
-        if len(self.cond_calls) < 3:
-            raise AnchorMissing('%s: expected >=3 property condition calls, found %d' %
+        if len(self.cond_calls) < 1:
+            raise AnchorMissing('%s: expected property condition calls, found %d' %
                                 (b.path, len(self.cond_calls)))
         # expectation switch
         self.exp_switch = [sw for sw in b.switches if sw.kind == 'variant' and
@@ -185,8 +185,16 @@ class CB:
                  if all(b.dominates(sw.bb, c.bb) for c in self.cond_calls)]
         # the innermost one: dominated by every other candidate
         self.exp_main = [sw for sw in cands if all(b.dominates(o.bb, sw.bb) for o in cands)]
+        self.merged = False
         if len(self.exp_main) != 1:
-            raise AnchorMissing('%s: main expectation match not unique (%d)' % (b.path, len(self.exp_main)))
+            # "merged" form: the condition is evaluated once, in front of the match on the expectation
+            # (`let holds = (p.condition)(..); let d = match p.expectation {..}`)
+            after = [sw for sw in self.exp_switch if any(b.dominates(c.bb, sw.bb) for c in self.cond_calls)]
+            first = [sw for sw in after if all(b.dominates(sw.bb, o.bb) for o in after)]
+            if len(first) != 1:
+                raise AnchorMissing('%s: main expectation match not unique (%d)' % (b.path, len(self.exp_main)))
+            self.exp_main = first
+            self.merged = True
         self.exp_main = self.exp_main[0]
         # main property loop = the Iterator::next that dominates the expectation switch
         mains = [c for c in self.prop_next if b.dominates(c.bb, self.exp_main.bb)]
@@ -221,6 +229,8 @@ class CB:
                     self.ev_inserts.append((ins, ec))
                     break
         self.as_inserts = [c for c in self.disc_inserts if c not in [x[0] for x in self.ev_inserts]]
+        # --- what one pass over a property does, per kind of property (and per outcome of its condition)
+        self._cells = {}
         # --- visitor ---
         self.visit = b.calls_to('CheckerVisitor::visit')
 
@@ -249,9 +259,36 @@ class CB:
     def arm_edges(self, variant):
         return self.exp_main.edges_for(variant)
 
-    def cond_in_arm(self, variant):
-        """condition calls reachable from the arm's edge before returning to the property loop"""
+    def prop_switches(self):
+        """switches on the expectation of the property of the current iteration"""
         b = self.b
+        return [sw for sw in self.exp_switch if b.dominates(self.prop_loop.bb, sw.bb)]
+
+    def cell(self, variant, holds=None):
+        """Blocks one pass of the property loop can execute for a property of kind `variant` (and, when
+        given, for that outcome of its condition): reachability from the loop's Some edge back to the loop
+        head with every test of the expectation / of a condition result constrained accordingly. Works for
+        a `match` with one arm per kind as well as for a condition evaluated up front."""
+        key = (variant, holds)
+        if key in self._cells:
+            return self._cells[key]
+        b = self.b
+        cons = [(self.prop_switches(), variant)]
+        if holds is not None:
+            sws = []
+            for c in self.cond_calls:
+                sws += b.switches_on_call(c)
+            cons.append((sws, holds))
+        r = b.reach_under(cons, [e[1] for e in self.prop_loop_some], cut_blocks=[self.prop_loop.bb])
+        self._cells[key] = r
+        return r
+
+    def cond_in_arm(self, variant):
+        """condition calls evaluated for a property of this kind"""
+        b = self.b
+        if self.merged:
+            r = self.cell(variant)
+            return [c for c in self.cond_calls if c.bb in r]
         out = []
         for e in self.arm_edges(variant):
             r = b.reach([e[1]], cut_blocks=[self.prop_loop.bb])
